@@ -516,6 +516,8 @@ impl VersionSet {
                         ));
                     }
                 }
+
+                return Err(error);
             }
         }
 
